@@ -1,37 +1,59 @@
 """E3 (network part): one node's host-side network registrations.
 
 A `World` holds a temp treadmill root with a real `rulefile.RuleMgr` and a real
-`endpoints.EndpointsMgr`, and in-memory stand-ins for everything behind a
-process / kernel boundary:
+`endpoints.EndpointsMgr`, and drives the two real entry points
 
-  * `FakeSocketModule`   -- replaces the name `socket` in `treadmill.runtime`
-                            (bind/listen/getsockname/close, EADDRINUSE for
-                            busy or already bound (proto, port) pairs)
-  * `FakeSampler`        -- replaces the name `random` in `treadmill.runtime`;
-                            `sample(pool, k)` returns a permutation of the pool
-                            whose first elements are chosen by the case
-  * `FakeResolver`       -- replaces the name `socket` in `_run` / `_finish`
-                            (`gethostbyname` from a table in the case)
-  * `IpSets`             -- `iptables.add_ip_set / rm_ip_set` (`-exist`
-                            semantics) and `flush_cnt_conntrack_table`
-  * `FakeNetClient`      -- network resource client: vip pool, lowest free vip
-                            first, `get` returns None after `delete`
-  * `FakePluginManager`  -- `plugin_manager.load` giving a firewall plugin that
-                            records exception rules per container (or raising,
-                            as on a node without the plugin)
-  * `newnet.create_newnet` -- recorded, no effect.
-  * `OsProxy`            -- `os` in _run with a per-container getpid().
+    treadmill.runtime.linux._run.run(tm_env, runtime_config, data_dir, manifest)
+    treadmill.runtime.linux._finish.finish(tm_env, container_dir)
 
-`World.start(spec)` performs the network relevant statements of
-`runtime.linux._run.run` in the same order; `World.finish(idx)` those of
-`_finish.finish/_cleanup` (load the saved state, `_cleanup_network` unless the
-network is shared).  A finish can be killed at its k-th host-side mutation
-(`Crash`, a BaseException, so no `except Exception` in the code swallows it).
+exactly as `LinuxRuntime._run / _finish` (called by `treadmill sproc run` /
+`sproc finish`) do.  Everything behind a process / kernel boundary is an
+in-memory stand-in, and EVERY call that crosses such a boundary first goes
+through `World.boundary(label)`, which counts it and can inject a fault there:
+
+  label                     stand-in
+  ------------------------  -------------------------------------------------
+  cgroup|localdisk|presence `FakeRsrcClient` behind `tm_env.svc_*.make_client`
+    .put/.wait/.get/.delete
+  net.put/.wait/.get/.delete `FakeNetClient`: vip pool, lowest free vip first,
+                            `get` returns None after `delete`, `wait` for a
+                            resource nobody requested times out (as the real
+                            client does after DEFAULT_TIMEOUT)
+  cgroups.join              `_run.cgroups`
+  image.get / image.unpack  `_run.image`
+  socket.bind               `FakeSocketModule` = the name `socket` in
+                            `treadmill.runtime` (EADDRINUSE for busy / bound)
+  (none)                    `FakeSampler` = the name `random` in
+                            `treadmill.runtime`; `sample(pool, k)` returns a
+                            permutation whose head is chosen by the case
+  rules.create_rule/.unlink_rule, endpoints.create_spec/.unlink_spec/.unlink_all
+                            the REAL managers behind a counting proxy
+  ipset.add / ipset.rm      `iptables.add_ip_set / rm_ip_set` (`-exist`)
+  conntrack.flush           `iptables.flush_cnt_conntrack_table`
+  resolve                   `FakeResolver` = `socket` in _run / _finish
+  plugin.apply/.cleanup     firewall plugin from `plugin_manager.load` (or
+                            load raising, as on a node without the plugin)
+  newnet                    `newnet.create_newnet`
+  fs.blk_fs_test/.blk_fs_create/.mount/.cleanup_mounts, unshare
+                            `_run.fs_linux`, `_run.unshare`
+  apphook.configure/.cleanup `_run.apphook`, `_finish.apphook`
+  exec_pid1                 `_run.subproc.exec_pid1` (the process becomes pid 1)
+  rrd.flush, archive_logs, trace.post
+                            `_finish.rrdutils`, `runtime.archive_logs`,
+                            `trace.post` as seen by _finish and appcfg.abort
+  (none)                    `OsProxy`: `os` in _run with a per-container pid
+
+A fault during a start is an `InjectedFault` (an OSError(EIO): the call fails
+and `run()` propagates or handles it as the code decides); `start()` then does
+what `sproc run` does with a failed run: flag the container aborted; the
+process is gone, so its sockets are closed.  A fault during a finish is a
+`Crash` (BaseException: the finishing process is killed).
 
 Nothing here decides what is right or wrong: the oracle lives in props/c16.py
-and only reads `World.snapshot()`.
+and only reads `World.snapshot()` / `World.services()`.
 """
 
+import collections
 import copy
 import errno
 import os
@@ -44,7 +66,10 @@ from treadmill import iptables
 from treadmill import newnet
 from treadmill import rulefile
 from treadmill import runtime
+from treadmill import services
+from treadmill import utils
 
+from treadmill.appcfg import abort as app_abort
 from treadmill.runtime.linux import _finish
 from treadmill.runtime.linux import _run
 
@@ -56,6 +81,15 @@ VIP_FIRST = 2
 
 class Crash(BaseException):
     """The finishing process is killed (not an Exception on purpose)."""
+
+
+class InjectedFault(OSError):
+    """A boundary call of the start path fails."""
+
+    def __init__(self, label):
+        super(InjectedFault, self).__init__(
+            errno.EIO, 'injected fault at %s' % label)
+        self.label = label
 
 
 # --------------------------------------------------------------------------
@@ -72,7 +106,7 @@ class FakeSocketModule(object):
     SO_REUSEADDR = 2
     error = OSError
 
-    def __init__(self, busy):
+    def __init__(self, busy, hook):
         # busy: set of (proto, port) held by processes outside the history
         self.busy = set(busy)
         self.bound = {}          # (proto, port) -> FakeSocket
@@ -98,6 +132,7 @@ class FakeSocketModule(object):
                 host, port = addr
                 assert not self.closed and self.addr is None
                 assert isinstance(port, int) and 0 < port < 65536
+                hook('socket.bind')
                 key = (self.proto, port)
                 if key in mod.busy or key in mod.bound:
                     mod.refused += 1
@@ -161,8 +196,9 @@ class FakeSampler(object):
                 if port not in seen:
                     seen.add(port)
                     head.append(port)
-        result = head + [port for port in pool if port not in seen]
-        return result[:k]
+        for port in head:
+            pool.remove(port)
+        return (head + pool)[:k]
 
 
 class FakeResolver(object):
@@ -170,12 +206,12 @@ class FakeResolver(object):
 
     error = OSError
 
-    def __init__(self, table):
+    def __init__(self, table, hook):
         self.table = dict(table)
-        self.lookups = 0
+        self.hook = hook
 
     def gethostbyname(self, host):
-        self.lookups += 1
+        self.hook('resolve')
         if host in self.table:
             return self.table[host]
         parts = host.split('.')
@@ -185,76 +221,100 @@ class FakeResolver(object):
 
 
 # --------------------------------------------------------------------------
-# kernel side: ip sets, conntrack; services: network client; plugin
+# kernel side: ip sets, conntrack; services: resource clients; plugin
 # --------------------------------------------------------------------------
 
 class IpSets(object):
     """`ipset -exist add/del` on named sets."""
 
-    def __init__(self):
+    def __init__(self, hook):
         self.sets = {}
         self.flushed = []
-        self.hook = None
+        self.hook = hook
 
     def add_ip_set(self, target_set, add_ip):
-        if self.hook:
-            self.hook('ipset.add')
+        self.hook('ipset.add')
         self.sets.setdefault(target_set, set()).add(str(add_ip))
 
     def rm_ip_set(self, target_set, del_ip):
-        if self.hook:
-            self.hook('ipset.rm')
+        self.hook('ipset.rm')
         self.sets.setdefault(target_set, set()).discard(str(del_ip))
 
     def flush_cnt_conntrack_table(self, vip):
+        self.hook('conntrack.flush')
         self.flushed.append(vip)
 
 
-class FakeNetClient(object):
+class FakeRsrcClient(object):
+    """Client of one node resource service (cgroup, localdisk, presence).
+
+    Doubles as the service object: `tm_env.svc_x.make_client(dir)` gives it.
+    """
+
+    def __init__(self, name, reply, hook):
+        self.name = name
+        self.reply = reply
+        self.hook = hook
+        self.replies = {}
+
+    def make_client(self, _clientdir):
+        return self
+
+    def put(self, rsrc_id, rsrc_data):
+        self.hook(self.name + '.put')
+        if rsrc_id not in self.replies:
+            self.replies[rsrc_id] = self.allocate(rsrc_id, rsrc_data)
+
+    def allocate(self, _rsrc_id, _rsrc_data):
+        return copy.deepcopy(self.reply)
+
+    def wait(self, rsrc_id, timeout=None):  # pylint: disable=unused-argument
+        self.hook(self.name + '.wait')
+        if rsrc_id not in self.replies:
+            # what the real client raises once its timeout has passed
+            raise services.ResourceServiceTimeoutError(
+                'Resource %r not available in time' % rsrc_id)
+        return copy.deepcopy(self.replies[rsrc_id])
+
+    def get(self, rsrc_id):
+        self.hook(self.name + '.get')
+        rep = self.replies.get(rsrc_id)
+        return copy.deepcopy(rep) if rep is not None else None
+
+    def delete(self, rsrc_id):
+        self.hook(self.name + '.delete')
+        self.replies.pop(rsrc_id, None)
+
+
+class FakeNetClient(FakeRsrcClient):
     """Network resource client over a vip pool (lowest free address first)."""
 
-    def __init__(self):
-        self.replies = {}
+    def __init__(self, hook):
+        super(FakeNetClient, self).__init__('net', None, hook)
         self.history = []     # (unique_name, vip) in allocation order
-        self.hook = None
 
-    def put(self, rsrc_id, _rsrc_data):
-        if rsrc_id in self.replies:
-            return
+    def allocate(self, rsrc_id, _rsrc_data):
         used = {rep['vip'] for rep in self.replies.values()}
         idx = VIP_FIRST
         while VIP_FMT % idx in used:
             idx += 1
         vip = VIP_FMT % idx
         uniqueid = rsrc_id.rsplit('-', 1)[1]
-        self.replies[rsrc_id] = {
+        self.history.append((rsrc_id, vip))
+        return {
             'vip': vip,
             'veth': '{id:>013s}.1'.format(id=uniqueid),
             'gateway': GATEWAY,
             'external_ip': EXT_IP,
         }
-        self.history.append((rsrc_id, vip))
-
-    def wait(self, rsrc_id, timeout=None):  # pylint: disable=unused-argument
-        return copy.deepcopy(self.replies[rsrc_id])
-
-    def get(self, rsrc_id):
-        rep = self.replies.get(rsrc_id)
-        return copy.deepcopy(rep) if rep is not None else None
-
-    def delete(self, rsrc_id):
-        if self.hook:
-            self.hook('net.delete')
-        self.replies.pop(rsrc_id, None)
 
 
 class FakePluginManager(object):
     """`plugin_manager.load` for the firewall plugin."""
 
-    def __init__(self, mode):
+    def __init__(self, mode, hook):
         self.mode = mode          # 'ok' | 'missing'
         self.rules = {}           # unique_name -> 1
-        self.hook = None
         outer = self
 
         class Plugin(object):
@@ -262,12 +322,12 @@ class FakePluginManager(object):
 
             @staticmethod
             def apply_exception_rules(_tm_env, _container_dir, app):
+                hook('plugin.apply')
                 outer.rules[appcfg.app_unique_name(app)] = 1
 
             @staticmethod
             def cleanup_exception_rules(_tm_env, _container_dir, app):
-                if outer.hook:
-                    outer.hook('plugin.cleanup')
+                hook('plugin.cleanup')
                 outer.rules.pop(appcfg.app_unique_name(app), None)
 
         self.plugin = Plugin
@@ -297,6 +357,24 @@ class OsProxy(object):
         return getattr(os, name)
 
 
+class _Recorder(object):
+    """A module stand-in: every listed function is a counted boundary call."""
+
+    def __init__(self, hook, functions, **constants):
+        self.calls = []
+        for attr, (label, result) in functions.items():
+            setattr(self, attr, self._make(hook, label, result))
+        for key, val in constants.items():
+            setattr(self, key, val)
+
+    def _make(self, hook, label, result):
+        def call(*args, **kwargs):
+            hook(label)
+            self.calls.append((label, args, kwargs))
+            return result(*args, **kwargs) if callable(result) else result
+        return call
+
+
 class _Hooked(object):
     """Delegates to a real manager; calls the world's hook before mutations."""
 
@@ -313,7 +391,7 @@ class _Hooked(object):
             label = '%s.%s' % (self._prefix, name)
 
             def call(*args, **kwargs):
-                world.mutation(label)
+                world.boundary(label)
                 return attr(*args, **kwargs)
             return call
         return attr
@@ -324,9 +402,13 @@ class TmEnv(object):
 
     def __init__(self, root, world):
         self.root = root
+        self.data = None
         self.apps_dir = os.path.join(root, 'apps')
         self.rules_dir = os.path.join(root, 'rules')
         self.endpoints_dir = os.path.join(root, 'endpoints')
+        self.metrics_dir = os.path.join(root, 'metrics')
+        self.archives_dir = os.path.join(root, 'archives')
+        self.app_events_dir = os.path.join(root, 'appevents')
         for path in (self.apps_dir, self.rules_dir, self.endpoints_dir):
             os.makedirs(path)
         # exactly as appenv/linux: RuleMgr(rules_dir, apps_dir),
@@ -338,6 +420,13 @@ class TmEnv(object):
         self.endpoints = _Hooked(self.real_endpoints, 'endpoints',
                                  ('create_spec', 'unlink_spec', 'unlink_all'),
                                  world)
+        hook = world.boundary
+        self.svc_cgroup = FakeRsrcClient(
+            'cgroup', {'cpu': '/fake/cpu', 'memory': '/fake/memory'}, hook)
+        self.svc_localdisk = FakeRsrcClient(
+            'localdisk', {'block_dev': '/dev/fake/vol'}, hook)
+        self.svc_presence = FakeRsrcClient('presence', {}, hook)
+        self.svc_network = FakeNetClient(hook)
 
 
 # --------------------------------------------------------------------------
@@ -348,11 +437,22 @@ _PATCHES = (
     # (module object, attribute, key in World.fakes)
     (runtime, 'socket', 'socket'),
     (runtime, 'random', 'random'),
+    (runtime, 'archive_logs', 'archive_logs'),
     (_run, 'socket', 'resolver'),
     (_run, 'os', 'os'),
-    (_finish, 'socket', 'resolver'),
+    (_run, 'cgroups', 'cgroups'),
+    (_run, 'image', 'image'),
+    (_run, 'fs_linux', 'fs_linux'),
+    (_run, 'unshare', 'unshare'),
+    (_run, 'apphook', 'apphook'),
+    (_run, 'subproc', 'subproc'),
     (_run, 'plugin_manager', 'plugins'),
+    (_finish, 'socket', 'resolver'),
     (_finish, 'plugin_manager', 'plugins'),
+    (_finish, 'apphook', 'apphook'),
+    (_finish, 'rrdutils', 'rrdutils'),
+    (_finish, 'trace', 'trace'),
+    (app_abort, 'trace', 'trace'),
     (iptables, 'add_ip_set', 'add_ip_set'),
     (iptables, 'rm_ip_set', 'rm_ip_set'),
     (iptables, 'flush_cnt_conntrack_table', 'flush'),
@@ -378,7 +478,7 @@ def unique_name_of(spec):
 
 def build_manifest(spec):
     """The manifest as appcfg.manifest.load + add_linux_system_services
-    leave it for the fields the network code reads."""
+    leave it for the fields the start / finish code reads."""
     vring = {'cells': list(spec['vring']['cells'])}
     if spec['vring'].get('rules'):
         vring['rules'] = copy.deepcopy(spec['vring']['rules'])
@@ -407,22 +507,8 @@ def build_manifest(spec):
         'vring': vring,
         'cpu': 10, 'memory': '100M', 'disk': '100M',
         'services': [], 'system_services': [],
+        'identity_group': None, 'identity': None,
     }
-
-
-class Container(object):
-    """Book-keeping of one container of the history (harness side only)."""
-
-    def __init__(self, idx, spec):
-        self.idx = idx
-        self.spec = spec
-        self.unique_name = unique_name_of(spec)
-        self.container_dir = None
-        self.data_dir = None
-        self.sockets = []
-        self.manifest = None       # after port allocation
-        self.network = None
-        self.exited = False
 
 
 def tmp_base():
@@ -441,50 +527,118 @@ def tmp_base():
     return None
 
 
+class Container(object):
+    """Book-keeping of one container of the history (harness side only)."""
+
+    def __init__(self, idx, spec):
+        self.idx = idx
+        self.spec = spec
+        self.unique_name = unique_name_of(spec)
+        self.container_dir = None
+        self.data_dir = None
+        self.sockets = []
+        self.manifest = None       # the dict run() worked on (mutated by it)
+        self.exited = False
+        self.start_error = None    # exception that ended run(), if any
+        self.fault_label = None    # boundary label where a fault was injected
+        self.start_log = []        # boundary labels crossed by the start
+
+    @property
+    def state_saved(self):
+        return os.path.exists(os.path.join(self.data_dir, 'state.json'))
+
+
 class World(object):
     """One node."""
 
     def __init__(self, hosts, busy, plugin_mode):
         self.root = tempfile.mkdtemp(prefix='verif-c16-', dir=tmp_base())
-        self.crash_at = None
-        self.mutations = 0
-        self.mutation_log = []
+        self.fault = None
+        self.fault_hit = None
+        self.crossings = 0
+        self.label_counts = collections.Counter()
+        self.log = []
+        hook = self.boundary
         self.env = TmEnv(self.root, self)
-        self.ipsets = IpSets()
-        self.ipsets.hook = self.mutation
-        self.net = FakeNetClient()
-        self.net.hook = self.mutation
-        self.plugins = FakePluginManager(plugin_mode)
-        self.plugins.hook = self.mutation
-        self.sockmod = FakeSocketModule(busy)
+        self.net = self.env.svc_network
+        self.ipsets = IpSets(hook)
+        self.plugins = FakePluginManager(plugin_mode, hook)
+        self.sockmod = FakeSocketModule(busy, hook)
         self.sampler = FakeSampler()
-        self.resolver = FakeResolver(hosts)
-        self.newnet_calls = []
+        self.resolver = FakeResolver(hosts, hook)
         self.osproxy = OsProxy()
+        self.events = []
+        self.execs = []
+
+        def get_image(_tm_env, _manifest):
+            return _Recorder(hook, {'unpack': ('image.unpack', None)})
+
         self.fakes = {
-            'os': self.osproxy,
             'socket': self.sockmod,
             'random': self.sampler,
+            'archive_logs': _Recorder(
+                hook, {'f': ('archive_logs', None)}).f,
             'resolver': self.resolver,
+            'os': self.osproxy,
+            'cgroups': _Recorder(hook, {'join': ('cgroups.join', None)}),
+            'image': _Recorder(hook, {'get_image': ('image.get', get_image)}),
+            'fs_linux': _Recorder(hook, {
+                'blk_fs_test': ('fs.blk_fs_test', False),
+                'blk_fs_create': ('fs.blk_fs_create', None),
+                'mount_filesystem': ('fs.mount', None),
+                'cleanup_mounts': ('fs.cleanup_mounts', None),
+            }),
+            'unshare': _Recorder(hook, {'unshare': ('unshare', None)},
+                                 CLONE_NEWNS=0x20000),
+            'apphook': _Recorder(hook, {
+                'configure': ('apphook.configure', None),
+                'cleanup': ('apphook.cleanup', None),
+            }),
+            'subproc': _Recorder(hook, {
+                'exec_pid1': ('exec_pid1',
+                              lambda *a, **k: self.execs.append(a)),
+            }),
+            'rrdutils': _Recorder(hook, {'flush_noexc': ('rrd.flush', None)}),
+            'trace': _Recorder(hook, {
+                'post': ('trace.post',
+                         lambda _dir, event: self.events.append(event)),
+            }),
             'plugins': self.plugins,
             'add_ip_set': self.ipsets.add_ip_set,
             'rm_ip_set': self.ipsets.rm_ip_set,
             'flush': self.ipsets.flush_cnt_conntrack_table,
-            'create_newnet': self._create_newnet,
+            'create_newnet': _Recorder(
+                hook, {'f': ('newnet', None)}).f,
         }
+        self.runtime_config = utils.to_obj({'host_mount_whitelist': []})
         self._saved = []
         self.containers = {}
 
     # -- plumbing ----------------------------------------------------------
-    def _create_newnet(self, veth, vip, gateway, service_ip=None):
-        self.newnet_calls.append((veth, vip, gateway, service_ip))
+    def boundary(self, label):
+        """Called before every call that leaves the process under test."""
+        self.crossings += 1
+        self.label_counts[label] += 1
+        self.log.append(label)
+        fault = self.fault
+        if fault is None:
+            return
+        if 'at' in fault:
+            hit = fault['at'] == self.crossings
+        else:
+            hit = (fault['label'] == label and
+                   fault['nth'] == self.label_counts[label])
+        if hit:
+            self.fault = None
+            self.fault_hit = label
+            raise fault['exc'](label)
 
-    def mutation(self, label):
-        """Called before every host-side mutation made by the code under test."""
-        self.mutations += 1
-        self.mutation_log.append(label)
-        if self.crash_at is not None and self.mutations == self.crash_at:
-            raise Crash(label)
+    def _arm(self, fault):
+        self.crossings = 0
+        self.label_counts = collections.Counter()
+        self.log = []
+        self.fault = fault
+        self.fault_hit = None
 
     def __enter__(self):
         for mod, attr, key in _PATCHES:
@@ -515,6 +669,14 @@ class World(object):
             snap['ipset:' + set_name] = {member: 1 for member in members}
         return snap
 
+    def services(self):
+        """{service: {rsrc_id: reply}} held by the node resource services."""
+        return {
+            svc.name: copy.deepcopy(svc.replies)
+            for svc in (self.env.svc_cgroup, self.env.svc_localdisk,
+                        self.env.svc_network, self.env.svc_presence)
+        }
+
     # -- seeding of entries owned by containers outside the history -------
     def seed_rule(self, filename, owner):
         os.makedirs(os.path.join(self.env.apps_dir, owner), exist_ok=True)
@@ -530,8 +692,14 @@ class World(object):
         self.ipsets.sets.setdefault(set_name, set()).add(member)
 
     # -- the two halves of a container's life ------------------------------
-    def start(self, idx, spec):
-        """Network relevant statements of runtime.linux._run.run."""
+    def start(self, idx, spec, fault=None):
+        """`treadmill sproc run` of container idx through the real run().
+
+        fault: None | {'at': k} | {'label': L, 'nth': n} -- the k-th boundary
+        call of this start (or the n-th one labelled L) fails.
+        Returns the Container; `start_error` is the exception that ended
+        run(), `fault_label` where the fault was injected (it may have been
+        handled by the code, in which case start_error stays None)."""
         cont = Container(idx, spec)
         self.containers[idx] = cont
         cont.container_dir = os.path.join(self.env.apps_dir, cont.unique_name)
@@ -539,36 +707,47 @@ class World(object):
         os.makedirs(cont.data_dir)
 
         manifest = build_manifest(spec)
-        unique_name = appcfg.manifest_unique_name(manifest)
-        assert unique_name == cont.unique_name
-
-        if not manifest['shared_network']:
-            self.net.put(unique_name,
-                         {'environment': manifest['environment']})
-            app_network = self.net.wait(unique_name)
-        else:
-            # host network: only external_ip is read (by the port allocation)
-            app_network = {'vip': EXT_IP, 'veth': None, 'gateway': GATEWAY,
-                           'external_ip': EXT_IP}
-        cont.network = app_network
-        manifest['network'] = app_network
-        manifest['vip'] = {'ip0': app_network['gateway'],
-                           'ip1': app_network['vip']}
+        assert appcfg.manifest_unique_name(manifest) == cont.unique_name
+        cont.manifest = manifest
 
         self.sampler.prime([spec['order']['tcp'], spec['order']['udp']])
-        cont.sockets = runtime.allocate_network_ports(
-            app_network['external_ip'], manifest)
-        cont.manifest = copy.deepcopy(manifest)
-
-        app = runtime.save_app(manifest, cont.data_dir)
         self.osproxy.pid = 1000 + idx
-        if not app.shared_network:
-            _run._unshare_network(  # pylint: disable=protected-access
-                self.env, cont.container_dir, app)
-        else:
-            for sock in cont.sockets:
+        first_socket = len(self.sockmod.created)
+        armed = None
+        if fault is not None:
+            armed = dict(fault, exc=InjectedFault)
+        self._arm(armed)
+        try:
+            _run.run(tm_env=self.env, runtime_config=self.runtime_config,
+                     container_dir=cont.data_dir, manifest=manifest)
+        except Exception as err:  # pylint: disable=broad-except
+            # as treadmill.sproc.run: any failure of run() aborts the app
+            cont.start_error = err
+            why = getattr(err, 'reason', app_abort.AbortedReason.UNKNOWN)
+            if not isinstance(why, app_abort.AbortedReason):
+                why = app_abort.AbortedReason.UNKNOWN
+            app_abort.flag_aborted(cont.data_dir, why=why,
+                                   payload=type(err).__name__)
+        finally:
+            cont.fault_label = self.fault_hit
+            self.fault = None
+            cont.start_log = list(self.log)
+
+        new_sockets = self.sockmod.created[first_socket:]
+        if cont.start_error is not None:
+            # the run process is gone
+            for sock in new_sockets:
                 sock.close()
+            cont.exited = True
+        else:
+            cont.sockets = [s for s in new_sockets
+                            if s.addr is not None and not s.closed]
         return cont
+
+    def network_of(self, cont):
+        """The network the node's service holds / held for the container."""
+        net = cont.manifest.get('network') if cont.manifest else None
+        return net or self.net.replies.get(cont.unique_name)
 
     def exit_container(self, idx):
         """The container's processes are gone: its sockets are closed."""
@@ -579,25 +758,22 @@ class World(object):
                 sock.close()
 
     def finish(self, idx, crash_at=None):
-        """Network relevant statements of _finish.finish / _cleanup.
+        """`treadmill sproc finish` of container idx through the real finish().
 
-        crash_at=k kills the finishing process at its k-th host-side mutation
-        (returns the label of that mutation, else None)."""
+        crash_at=k kills the finishing process at its k-th boundary call
+        (returns the label of that call, else None)."""
         cont = self.containers[idx]
         self.exit_container(idx)
-        app = runtime.load_app(cont.data_dir)
-        assert app is not None
-        self.mutations = 0
-        self.mutation_log = []
-        self.crash_at = crash_at
+        armed = None
+        if crash_at is not None:
+            armed = {'at': crash_at, 'exc': Crash}
+        self._arm(armed)
         try:
-            if hasattr(app, 'shared_network') and not app.shared_network:
-                _finish._cleanup_network(  # pylint: disable=protected-access
-                    self.env, cont.data_dir, app, self.net)
+            _finish.finish(self.env, cont.container_dir)
         except Crash as crash:
             return str(crash)
         finally:
-            self.crash_at = None
+            self.fault = None
         return None
 
 
